@@ -48,6 +48,26 @@ VARIANTS = [
         dict(file=ITP, old="        context.add_node(index, **dict(collections.ChainMap(attributes, atom)))", new="        context.add_node(index, **dict(collections.ChainMap(attributes, atom)))\n        self.current_atom_names.append(index)")]),
     dict(name='atom-count-only-when-fewer', expect='fire', key='DT-reject|atom-count', edits=[
         dict(file=FF, old="    if natoms is not None and len(atoms) != natoms:", new="    if natoms is not None and len(atoms) < natoms:")]),
+    dict(name='prefix-minus-gives-positive-order', expect='fire', key='DT-prefix-order|table', edits=[
+        dict(file=FF, old="        order_from_prefix = -len(prefix)", new="        order_from_prefix = len(prefix)")]),
+    dict(name='order-attribute-bool-accepted', expect='fire', key='DT-prefix-order|table', edits=[
+        dict(file=FF, old="        if isinstance(order, numbers.Integral) and not isinstance(order, bool):", new="        if isinstance(order, numbers.Integral):")]),
+    dict(name='key-not-prefixed-from-order-attribute', expect='fire', key='DT-prefix-order|table', edits=[
+        dict(file=FF, old="        prefixed = prefix_from_attributes + base", new="        prefixed = reference")]),
+    dict(name='mixed-prefix-accepted', expect='fire', key='DT-prefix-order|table', edits=[
+        dict(file=FF, old="    if len(set(prefix)) > 1:", new="    if len(set(prefix)) > 2:")]),
+    dict(name='explicit-atomname-overwritten', expect='fire', key='DT-prefix-order|table', edits=[
+        dict(file=FF, old="    if 'atomname' not in return_attributes:\n        return_attributes['atomname'] = base", new="    return_attributes['atomname'] = base")]),
+    dict(name='input-attributes-mutated', expect='fire', key='DT-prefix-order|table', edits=[
+        dict(file=FF, old="    return_attributes = copy.copy(attributes)", new="    return_attributes = attributes")]),
+    dict(name='link-interaction-atoms-skip-normalisation', expect='fire', key='DT-prefix-order|caller|_treat_link_interaction_atoms', edits=[
+        dict(file=FF, old="        prefixed_reference, attributes = _treat_atom_prefix(reference, attributes)\n        all_references.append(prefixed_reference)",
+             new="        prefixed_reference = reference\n        all_references.append(prefixed_reference)")]),
+    dict(name='benign-order-zero-boundary', expect='silent', edits=[
+        dict(file=FF, old="            if order > 0:\n                prefix_char = '+'", new="            if order >= 1:\n                prefix_char = '+'")]),
+    dict(name='benign-prefix-helper-early-return-removed', expect='silent', edits=[
+        dict(file=FF, old="    prefix_from_prefix = None\n    order_from_prefix = 0\n    if not prefix:\n        return prefix_from_prefix, order_from_prefix\n",
+             new="    if not prefix:\n        return None, 0\n")]),
     # benign
     dict(name='benign-reset-instead-of-guard', expect='silent', edits=[
         dict(file=FF, old="            if not links or links[-1] is not self.current_link:\n                links.append(self.current_link)",
